@@ -928,13 +928,18 @@ func main() {
 				es[i] = coqEmission(e)
 			}
 			npanic := 0
-			for _, p := range res {
-				if p {
-					npanic++
+			var panicking []map[string]interface{}
+			for _, rf := range refs {
+				for k := 0; k < rf.n; k++ {
+					if res[rf.first+k] {
+						npanic++
+						r := table.Rows[rf.row]
+						panicking = append(panicking, map[string]interface{}{"site": r.Site, "pos": r.Pos, "kind": r.Kind, "name": r.Name, "labels": r.Labels})
+					}
 				}
 			}
 			w.Add(lib.Case{Kind: "rows", Coq: lib.App("KRows", lib.List(gs), lib.List(sites), lib.List(es), coqOutcomes(res)),
-				JSON:     map[string]interface{}{"what": "every executable table row once, one registry", "rows": len(refs), "emissions": len(job.Ems), "panics": npanic},
+				JSON:     map[string]interface{}{"what": "every executable table row once, one registry", "rows": len(refs), "emissions": len(job.Ems), "panics": npanic, "panicking_rows": panicking},
 				Outcomes: []string{fmt.Sprintf("rows-panics-%d", npanic)}})
 			for _, rf := range refs {
 				r := table.Rows[rf.row]
